@@ -179,6 +179,9 @@ def value(p, ty):
 def tvalue(p):
     t = p.type(); skip_param_attrs(p); return value(p, t)
 
+def is_union(t):
+    return isinstance(t, Named) and t.n.lstrip('%').strip('"').startswith('union.')
+
 class I:  # instruction
     def __init__(s, op, res=None, **kw): s.op = op; s.res = res; s.__dict__.update(kw)
 
@@ -504,6 +507,12 @@ class Emitter:
         s.done_struct.add(nm)
         if isinstance(t, Other):
             s.struct_order.append((nm, None)); return
+        if nm.startswith('struct S_union_2e') and isinstance(t, Struct):
+            # LLVM models a C++ union as one representative member plus pointer casts.  CBMC 6.11 mis-reads elements reached through a
+            # pointer into such a type-punned nested aggregate (array of structs holding arrays), so unions are emitted as opaque,
+            # correctly sized and aligned byte arrays: every access then is an explicit byte-level reinterpretation.
+            sz, al = s.size_align(t)
+            s.struct_order.append((nm, '%s { uint8_t b[%d]; } __attribute__((aligned(%d)));' % (nm, sz, al))); return
         # emit dependencies first (by-value members)
         if isinstance(t, Struct):
             fields = []
@@ -554,6 +563,10 @@ class Emitter:
             return x
         if v.kind == 'agg':
             rt = s.resolve(t)
+            if is_union(t):
+                def allzero(e): return (e.kind == 'const' and e.text in ('0', 'false', 'null', 'undef', 'poison', 'zeroinitializer', '0.000000e+00')) or (e.kind == 'agg' and all(allzero(x) for x in e.elems))
+                if all(allzero(e) for e in v.elems): return '((%s){{0}})' % s.cty(t)
+                raise ValueError('non-zero constant of union type %s' % t.n)
             if isinstance(rt, Struct): return '((%s){%s})' % (s.cty(t), ', '.join(s.val(e) for e in v.elems))
             return '((%s){{%s}})' % (s.cty(t), ', '.join(s.val(e) for e in v.elems))
         if v.kind == 'cstr':
@@ -586,7 +599,10 @@ class Emitter:
         cur = bty; acc = '(*%s)' % e
         for a in args[2:]:
             rt = s.resolve(cur)
-            if isinstance(rt, Struct):
+            if is_union(cur) and isinstance(rt, Struct):
+                i = int(a.text); off = s.field_offset(rt, i)
+                acc = '(*(%s *)((uint8_t *)&%s + %d))' % (s.cty(rt.f[i]), acc, off); cur = rt.f[i]
+            elif isinstance(rt, Struct):
                 i = int(a.text); acc = '%s.f%d' % (acc, i); cur = rt.f[i]
             elif isinstance(rt, Arr):
                 acc = '%s.a[%s]' % (acc, s.idx(a)); cur = rt.t
@@ -798,6 +814,7 @@ class Emitter:
                     t = x.val.ty; acc = s.val(x.val)
                     for i in x.idx:
                         rt = s.resolve(t)
+                        if is_union(t): raise NotImplementedError('extractvalue through a union')
                         if isinstance(rt, Struct): acc += '.f%d' % i; t = rt.f[i]
                         else: acc += '.a[%d]' % i; t = rt.t
                     decl(x.res, t); L.append('%s = %s;' % (r, acc))
@@ -861,6 +878,15 @@ class Emitter:
                 mal = max(mal, al); off = (off + al - 1) // al * al + sz
             return (off + mal - 1) // mal * mal, mal
         raise TypeError(t)
+    def field_offset(s, st, idx):
+        off = 0
+        for k, f in enumerate(st.f):
+            sz, al = s.size_align(f)
+            if st.packed: al = 1
+            off = (off + al - 1) // al * al
+            if k == idx: return off
+            off += sz
+        raise IndexError(idx)
     def zero(s, t):
         if isinstance(t, Void): return ''
         rt = s.resolve(t)
